@@ -2,7 +2,7 @@
 """Write /verif/seeded/README.md from the meta.json files (what each independently produced change is, what it needs to manifest, which check reports it)."""
 import glob, json, os, re
 HERE = os.path.dirname(os.path.dirname(os.path.abspath(__file__)))
-rows, missed = [], []
+rows, missed, neutral = [], [], []
 for d in sorted(glob.glob(os.path.join(HERE, "seeded", "C*_*"))):
     m = json.load(open(os.path.join(d, "meta.json")))
     vr = m.get("verif_ran", {})
@@ -24,6 +24,13 @@ for d in sorted(glob.glob(os.path.join(HERE, "seeded", "C*_*"))):
     conf = vr.get("confirmed_by_verif", {})
     ok = conf.get("all_conditions_hold")
     rows.append("| %s | %s | %s | %s | %s | %s |" % (name, files, what, needs, "yes" if ok else "NO", "; ".join(hits) if hits else "**missed** (exit %s)" % ",".join(str(r.get("exit")) for r in det.values())))
+    if m.get("neutralised"):      # a later fix: commit made the change harmless: it must NOT be reported any more
+        quiet = all(r.get("exit") == 0 for r in det.values())
+        rows[-1] = "| %s | %s | %s | %s | %s | %s |" % (name, files, what, needs, "no longer a violation", ("quiet, as it should be: " if quiet else "**still reported**: ") + m["neutralised"][:160] + "...")
+        if not quiet:
+            missed.append(name)
+        neutral.append(name)
+        continue
     if not hits:
         missed.append(name)
 out = ["# Independently produced breaking changes", "",
@@ -33,7 +40,7 @@ out = ["# Independently produced breaking changes", "",
        "repository's test suite gives the unchanged result (506 passed and the same 6 pre-existing failures), demo passes on the clean copy and fails on the changed one.",
        "'reported by' = the registered quick check of the property (plus any other property listed) run with `--repo <changed copy>`; the first obligation it names.",
        "None of these changes is ever applied to /repo itself.", "",
-       "%d changes, %d reported (exit 1 with a VIOLATION line), %d missed: %s" % (len(rows), len(rows) - len(missed), len(missed), ", ".join(missed) or "-"), "",
+       "%d changes, %d reported (exit 1 with a VIOLATION line), %d made harmless by a later fix and rightly not reported (%s), %d missed: %s" % (len(rows), len(rows) - len(missed) - len(neutral), len(neutral), ", ".join(neutral) or "-", len(missed), ", ".join(missed) or "-"), "",
        "| id | files | what it breaks | needs, to manifest | confirmed | reported by |", "|---|---|---|---|---|---|"] + rows
 open(os.path.join(HERE, "seeded", "README.md"), "w").write("\n".join(out) + "\n")
 print(out[9])
